@@ -30,8 +30,19 @@ def check(run, tier, seed, replay=None, only=None):
         stages.append(("inv-%d" % i, ["--mode", "inv", "--a", a, "--b", b, "--seed", seed * 100 + i]))
     for s in range(4 if quick else 16):
         stages.append(("stft-%d" % s, ["--mode", "stft", "--budget", 250 if quick else 1500, "--seed", seed * 100 + 40 + s]))
-    res = core.parallel([mc] + [lambda n=n, a=a: core.drive(run, exe, a, n, timeout=3000) for n, a in stages])
+    from .c01 import kernel_jobs
+    asis = core.tlc("MC_FftKernels.tla", "MC_FftKernels_asis.cfg", workers=2, timeout=600)
+    if asis.infra_failure or not asis.inv_violated:
+        raise core.InfraError("vacuity guard: the quarter-wave irfft table applied to n = 2 (mod 4) must violate KernelsEqualDft\n" + asis.out[-1500:])
+    run.states += asis.distinct
+    run.transitions += asis.generated
+    run.extra["asis_irfft_table_model_fails_as_documented"] = True
+    kj = kernel_jobs(run, quick, maxlen=20 if quick else 64)
+    res = core.parallel([mc] + [j for j, _ in kj] + [lambda n=n, a=a: core.drive(run, exe, a, n, timeout=3000) for n, a in stages])
     run.add_tlc(res[0], "MC_Transform (irfft acceptance, STFT arithmetic, range permutations)")
+    for (_, what), r in zip(kj, res[1:1 + len(kj)]):
+        run.add_tlc(r, what + " (Ifft o Fft = id, Irfft o Dft = id)")
+    res = res[len(kj):]
     n = 0
     worst = {}
     for (name, args), recs in zip(stages, res[1:]):
@@ -45,6 +56,7 @@ def check(run, tier, seed, replay=None, only=None):
             run.sample({"stage": name, "event": recs[len(recs) // 2]}, limit=8)
     run.extra["worst_error_milli_of_bound"] = worst
     run.nontrivial = set(range(n))
+    run.clause("transcribed ifft / irfft (both table branches) invert the transform exactly in F_P", "T1 (spec level)", len(kj))
     run.clause("odd n rejected by exception; output lengths; finite values; segment / bin counts", "T1", n)
     run.clause("ifft(fft(x)) = x, irfft(rfft(x)) = x (both forms), istft(stft(x)) = x where the weight is non-zero", "T1m", n)
     run.exhaustive = True
